@@ -144,3 +144,8 @@ Definition eqb_reply (a b : reply) : bool :=
   | Request x n, Request y m => (x =? y) && (n =? m)
   | _, _ => false
   end.
+
+(* a case of the cases files: f1, request count, schedule, observed trace, ids of the
+   blocks held, stored signature verifies?, the re-delivery, its trace, ids held after *)
+Definition sync_case := (bool * Z * list (list dblock) * list (Z * list reply) * list Z * list bool *
+                         list (list dblock) * list (Z * list reply) * list Z)%type.
